@@ -1012,5 +1012,6 @@ def check_case(ctx, case):
     if case.get("lane") == "readonly":
         return check_readonly(ctx, {k: v for k, v in case.items() if k in ("lane", "fixture")})
     ops = case["ops"]
-    ex = BorderExec(ctx) if any(o["op"] in ("stroke", "merge") for o in ops) or (ops and ops[0]["op"] == "new" and not any(o["op"] in ("add_style", "apply", "edit", "read") for o in ops) and case.get("kind") == "border") else StyleExec(ctx)
+    is_style = any(o["op"] in ("add_style", "apply", "apply_hidden", "apply_saved_name", "edit") for o in ops)
+    ex = StyleExec(ctx) if is_style else BorderExec(ctx) if any(o["op"] in ("stroke", "merge") for o in ops) or (ops and ops[0]["op"] == "new" and not any(o["op"] in ("add_style", "apply", "edit", "read") for o in ops) and case.get("kind") == "border") else StyleExec(ctx)
     ex.replay(ops)
